@@ -66,6 +66,15 @@ func listBufferQueueIDs(parentLogger logger.Logger, rootPath string, matchChunkI
 	sort.Strings(entryNames)
 
 	validBufferIDList := make([]string, 0, len(entryNames))
+
+	// the root dir itself is the queue of the empty buffer ID, e.g. a single key field with empty value
+	rootOp := newChunkOperator(parentLogger, rootPath, matchChunkID, metricCreator, 0)
+	if numChunks := rootOp.CountExistingChunks(); numChunks > 0 {
+		validBufferIDList = append(validBufferIDList, "")
+		parentLogger.Infof("add existing buffer in root dir id='' count=%d", numChunks)
+	}
+	rootOp.Close()
+
 	for _, name := range entryNames {
 		path := filepath.Join(rootPath, name)
 
